@@ -162,6 +162,18 @@ for _k, _c in EXTRA4.items():
     c0, n0, t0 = CLAIMS[_k]
     CLAIMS[_k] = (c0 + _c, n0, t0)
 
+EXTRA5 = {
+ "C01": "; a message's To() is dereferenced in consensus scope only under a nil guard (a node-local tracer must not be able to fail)",
+ "C13": "; every success exit of MintAndAllocate records the block timestamp, without exception",
+ "C14": "; the redirected amounts must be bounded before they are converted into the fee pool's fixed-point numbers (they are not: open known finding)",
+ "C17": "; every parameter CalculateBaseFee divides by is compared with zero in Params.Validate; every computed result must pass the minimum-gas-price floor (it does not in two branches: open known finding)",
+ "C18": "; the typed-transaction constructors bound the chain id before storing it; the effective price of a dynamic-fee message is its fee cap when there is no base fee",
+ "C19": "; the EVM export lists only accounts with 20-byte addresses; the zero-height export decodes store keys with the module's key functions; RegisterCoin's duplicate check is keyed like the denom map",
+}
+for _k, _c in EXTRA5.items():
+    c0, n0, t0 = CLAIMS[_k]
+    CLAIMS[_k] = (c0 + _c, n0, t0)
+
 BUILT = json.load(open('/verif/tools/built.json'))
 
 m = {"version": 1,
